@@ -3,7 +3,7 @@ from collections import deque
 from math import isinf
 
 from ...mesh.datatypes import *
-from ...mesh.mesh_attributes import Attribute
+from ...mesh.mesh_attributes import Attribute, ArrayAttribute
 from ...utils import keyify, UnionFind
 from ...attributes import edge_length as attr_edge_length
 from .base import SpanningForest, SpanningTree
@@ -129,11 +129,11 @@ class EdgeMinimalSpanningTree(EdgeSpanningTree):
             weights (str|dict, optional) : provided weights of each edge. Options are:
                 `one` : uniform weight = 1 for every edge;
                 `length` : use the length of the edge;
-                `any dict` : custom weights.
+                `any dict` or edge attribute (sparse or dense) : custom weights, indexed by edge id.
                 Defaults to "length".
         """
         super().__init__(mesh, starting_vertex, avoid_boundary=avoid_boundary)
-        if not ((isinstance(weights, str) and weights in ["one", "length"]) or isinstance(weights, dict) or isinstance(weights, Attribute)):
+        if not ((isinstance(weights, str) and weights in ["one", "length"]) or isinstance(weights, dict) or isinstance(weights, (Attribute, ArrayAttribute))):
             raise Exception("Acceptable weights are 'one', 'length' or a custom dict or Attribute on edges")
         self.weights = weights
 
